@@ -319,8 +319,9 @@ pub fn dec_string(s: &str) -> Option<String> {
 /// Text part of an f-string: escapes as in strings, `{{` -> `{`, `}}` -> `}`.
 /// None: a lone brace or an undefined escape.
 pub fn dec_fstring_text(s: &str) -> Option<String> {
-    // braces first on the source text (an escape never produces a brace here:
-    // the generators do not use \x7b / \u{7b})
+    // the doubled braces of the source text become single ones; escapes are
+    // copied through untouched (an escape never counts as a brace, and the
+    // braces of `\u{..}` belong to the escape), then decoded as in a string
     let cs: Vec<char> = s.chars().collect();
     let mut t = String::new();
     let mut i = 0;
@@ -339,6 +340,15 @@ pub fn dec_fstring_text(s: &str) -> Option<String> {
                     t.push(*c);
                 }
                 i += 2;
+                if cs.get(i - 1) == Some(&'u') && cs.get(i) == Some(&'{') {
+                    while i < cs.len() {
+                        t.push(cs[i]);
+                        i += 1;
+                        if cs[i - 1] == '}' {
+                            break;
+                        }
+                    }
+                }
             }
             c => {
                 t.push(c);
@@ -476,6 +486,7 @@ pub fn preflight() -> Result<(), String> {
     chk(dec_string("a\\\n  \t b") == Some("ab".into()), "line continuation")?;
     chk(dec_string(r"\u{D800}").is_none() && dec_string(r"\q").is_none(), "undefined escapes")?;
     chk(dec_fstring_text(r"x is {{ x }}\n") == Some("x is { x }\n".into()), "f-string braces")?;
+    chk(dec_fstring_text(r"\x7b\x7b|\u{7d}\u{7d}{{\u{7b}") == Some("{{|}}{{".into()), "f-string escaped braces")?;
     chk(dec_ipv4("192.0.2.255") == Some(Ipv4Addr::new(192, 0, 2, 255)) && dec_ipv4("01.1.1.1").is_none(), "ipv4")?;
     chk(
         dec_ipv6("2001:DB8:2CA1:0000:0000:0567:5673:23b5")
